@@ -125,6 +125,17 @@ HISTORY_LINES = [
 ]
 
 
+LONG = "z" * 70000
+ODD_LINES = [
+    # ill-formed lines made of characters a transport may well hand over: lone surrogates (what errors="surrogateescape"
+    # makes of undecodable bytes), NUL, a byte order mark, a burst of noise as long as the stream limit
+    "\udc80", "\ud800\udc80;", "1;2;\udcff", "x\udc80;3;1;0;2;v", "1;3;1;0;2\udc80", "256;3;1;0;2;\udc80v", "1;3;9;0;2;\udcfe", "1;3;1;0;\udc80;v",
+    "\x00", "1;3;1;0;2\x00", "\ufeff1;3;1;0;2;v", LONG, "1;3;9;0;2;" + LONG, LONG + ";3;1;0;2;v",
+    # well-formed lines whose payload carries the same characters: accepted, decoded literally
+    "1;3;1;0;2;\udc80", "1;3;1;0;2;a\udcffb;c", "1;3;1;0;2;\x00", "1;3;1;0;2;" + LONG, "1;255;3;0;9;\ufeff",
+]
+
+
 def check_history(version: str, seq: list) -> list:
     """The verdict on a line must not depend on the lines decoded before it: one decoder and one gateway
     are fed a whole sequence; every line's accept/reject outcome must equal the reference verdict."""
@@ -199,6 +210,14 @@ def job_history(j):
     return n, {"must_accept": 0, "must_reject": 0, "either": 0}, viols, f"{a} | {b} | {c}"
 
 
+def job_odd(version):
+    viols = []
+    for line in ODD_LINES:
+        for k, w, rep in check_line(version, line):
+            viols.append((k, w[:600], {"version": version, "odd": ODD_LINES.index(line)}))
+    return len(ODD_LINES), {"must_accept": 0, "must_reject": 0, "either": 0}, viols, "odd"
+
+
 def lines_for(alpha: dict, node: str, child: str):
     for cmd, ack, typ in itertools.product(alpha["command"], alpha["ack"], alpha["type"]):
         head = [node, child, cmd, ack, typ]
@@ -246,6 +265,7 @@ def run(ctx: core.Ctx) -> core.Report:
     rp = core.pmap(job_prefix, jobsp, ctx.workers, chunksize=1)
     jobsh = [(v, HISTORY_LINES[i : i + 4]) for v in R.VERSIONS for i in range(0, len(HISTORY_LINES), 4)]
     rp += core.pmap(job_history, jobsh, ctx.workers, chunksize=1)
+    rp += core.pmap(job_odd, list(R.VERSIONS), ctx.workers, chunksize=1)
     sres = core.pmap(check_states, list(R.VERSIONS), ctx.workers, chunksize=1)
     total = 0
     classes = {"must_accept": 0, "must_reject": 0, "either": 0}
@@ -262,7 +282,7 @@ def run(ctx: core.Ctx) -> core.Report:
         "evaluations": total,
         "distinct_nontrivial": classes["must_accept"] + classes["either"] + classes["must_reject"],
         "classes": classes,
-        "rule": "full product of per-position token alphabets (6-8 fields) x payload/extra-field variants x endings, plus every 0-5 field prefix, x five versions; every generated line is distinct; each is decoded by a fresh real MessageSchema and, when it must be rejected, also fed to a fresh real Gateway.listen step; plus every sequence of 3 lines over a 16-line alphabet through one decoder and one gateway (a verdict must not depend on earlier lines)",
+        "rule": "full product of per-position token alphabets (6-8 fields) x payload/extra-field variants x endings, plus every 0-5 field prefix, x five versions; every generated line is distinct; each is decoded by a fresh real MessageSchema and, when it must be rejected, also fed to a fresh real Gateway.listen step; plus 20 lines made of lone surrogates, NUL, BOM and 70000-character bursts (ill-formed, and well-formed with such payloads); plus every sequence of 3 lines over a 16-line alphabet through one decoder and one gateway (a verdict must not depend on earlier lines)",
         "exhaustive": True,
         "bounds": {k: v for k, v in alpha.items()},
         "samples": ctx.pick([s for s in samples if s is not None], 6),
@@ -282,6 +302,9 @@ def replay(data: dict) -> dict:
     if data.get("state_check"):
         v = check_states(data["version"])
         return {"violated": bool(v), "violations": [{"key": k, "what": w} for k, w, _ in v]}
+    if "odd" in data:
+        v = check_line(data["version"], ODD_LINES[data["odd"]])
+        return {"violated": bool(v), "violations": [{"key": k, "what": w[:600]} for k, w, _ in v]}
     if "seq" in data:
         v = check_history(data["version"], data["seq"])
         return {"violated": bool(v), "violations": [{"key": k, "what": w} for k, w, _ in v]}
